@@ -8,7 +8,7 @@ use crate::{pipe::{self, Input}, report::*, util};
 
 /// Base input sets; the observed module is always `o`.
 pub fn bases() -> Vec<(&'static str, Vec<(String, String)>)> {
-    let o_std = "pub type O {\n    vftable {\n        pub fn v(&self, p: *const X) -> u32;\n    },\n    pub n: *mut O,\n    pub x: X,\n}\nimpl O {\n    #[address(0x1000)]\n    pub fn f(&self, e: E) -> *const X;\n}\npub enum E: u32 {\n    A,\n    B = 4,\n}\npub type D {\n    #[base]\n    pub base: O,\n}\n#[address(0x2000)]\npub extern gx: *mut X;\n";
+    let o_std = "pub type O {\n    vftable {\n        pub fn v(&self, p: *const X) -> u32;\n    },\n    pub n: *mut O,\n    pub x: X,\n}\nimpl O {\n    #[address(0x1000)]\n    pub fn f(&self, e: E) -> *const X;\n}\npub enum E: u32 {\n    A,\n    B = 4,\n}\npub type D {\n    #[base]\n    pub base: O,\n}\npub type XExt {\n    pub q: u32,\n}\npub type UsesExt {\n    pub p: *const EKind,\n    pub e: [XExt; 2],\n}\npub enum EKind: u16 {\n    K,\n}\n#[address(0x2000)]\npub extern gx: *mut X;\n";
     let x_local = "pub type X {\n    pub a: u32,\n    pub b: u32,\n}\n";
     let a_mod = "pub type X {\n    pub a: u32,\n    pub b: u32,\n    pub c: u32,\n    pub d: u32,\n}\npub type Helper {\n    pub h: u32,\n}\n";
     vec![
@@ -171,7 +171,15 @@ pub fn run(tier: &str, only: Option<&Value>) -> i32 {
                     if mpath == "o" || mpath == "p::o" {
                         continue;
                     }
-                    for extra in ["pub type Fresh {\n    pub q: u8,\n}\n", "pub type FreshV {\n    vftable {\n        pub fn z(&self);\n    },\n}\n", "pub enum FreshE: u8 {\n    K,\n}\n"] {
+                    for extra in [
+                        "pub type Fresh {\n    pub q: u8,\n}\n",
+                        "pub type FreshV {\n    vftable {\n        pub fn z(&self);\n    },\n}\n",
+                        "pub enum FreshE: u8 {\n    K,\n}\n",
+                        // names the observed module defines itself (it neither imports nor references these)
+                        "pub type XExt {\n    pub q: [u64; 4],\n}\n",
+                        "pub enum EKind: u8 {\n    Z,\n}\npub type OVftable {\n    pub z: u64,\n}\n",
+                        "pub type UsesExt {\n    pub z: u8,\n}\npub type D {\n    pub z: u8,\n}\npub type O {\n    pub z: u8,\n}\n",
+                    ] {
                         let mut m2 = mods.clone();
                         m2[mi].1 = format!("{mtext}{extra}");
                         let input = Input { modules: m2 };
